@@ -22,3 +22,21 @@ def c20():
     qs.append(Q("tag_to_str", "C20_tags.cpp", "vh_tag_to_str", unwind=6))
     qs.append(Q("roundtrip", "C20_tags.cpp", "vh_roundtrip", unwind=8))
     return qs
+
+# ------------------------------------------------------------------------------------------- C11
+META["C11"] = {
+    "bounds": "gr_count_unicode_characters on exact-size heap buffers: UTF-8 0..6 bytes (thorough 0..8), UTF-16 0..4 units (thorough 5), UTF-32 0..3 units, with buffer_end and NUL-terminated with buffer_end==NULL; single codec step on exact 4-byte / 2-unit / 1-unit buffers; put/get on all scalar values",
+    "outside": "longer buffers (codec is memoryless: state is (cp, sl)); encoded surrogate code points in UTF-8/UTF-32 are left unclassified (neither acceptance nor rejection is demanded); segment-level encoding equivalence is decided in C05",
+    "assumptions": ["reference decoders from Unicode Table 3-7 (harness/utfref.h)", "surrogate code points encoded in UTF-8/UTF-32 excluded by assumption"],
+}
+@prop("C11")
+def c11():
+    qs = []
+    for enc, qmax, tmax in ((8, 6, 8), (16, 4, 5), (32, 3, 3)):
+        for n in range(0, tmax + 1):
+            tiers = ("quick", "thorough") if n <= qmax else ("thorough",)
+            qs.append(Q(f"count_end_u{enc}_len{n}", "C11_utf.cpp", "vh_count_end", {"ENC": enc, "LEN": n}, unwind=n + 6, tiers=tiers))
+            qs.append(Q(f"count_nul_u{enc}_len{n}", "C11_utf.cpp", "vh_count_nul", {"ENC": enc, "LEN": n}, unwind=n + 6, tiers=tiers))
+        qs.append(Q(f"get_step_u{enc}", "C11_utf.cpp", "vh_get_step", {"ENC": enc}, unwind=8))
+        qs.append(Q(f"put_get_u{enc}", "C11_utf.cpp", "vh_put_get", {"ENC": enc}, unwind=8))
+    return qs
